@@ -385,6 +385,21 @@ class Runtime:
         if actual is not supplied:
             self.violation("arg-identity", f"call {nid} {where}: non-symbolic argument is not the supplied object")
 
+    def _file_mtime(self, name, t):
+        """The bundled file-store code path: a real file whose mtime is the
+        instant; uberjob.stores.get_modified_time reports it."""
+        import os
+
+        from uberjob.stores import get_modified_time
+
+        d = self.cfg.get("scratch")
+        path = os.path.join(d, name)
+        if not os.path.exists(path):
+            with open(path, "wb"):
+                pass
+        os.utime(path, ns=(int(round(t * 1e9)), int(round(t * 1e9))))
+        return get_modified_time(path)
+
     # ---- stores ----------------------------------------------------------
     def _sdur(self, name, op):
         return self.world["stores"].get(name, {}).get("dur", {}).get(op, 0.0)
@@ -474,7 +489,15 @@ class Runtime:
                     self._fire("mtime-raise")
                     raise e
                 t = self.disk.mtime(name)
-                out = None if t is None else render_instant(t, self.world["stores"][name].get("render"))
+                how = self.cfg.get("renders", {}).get(name, self.world["stores"][name].get("render"))
+                if t is None:
+                    out = None
+                elif how == "file":
+                    out = self._file_mtime(name, t)
+                else:
+                    out = render_instant(t, how)
+                if out is not None and out.tzinfo is None and out.fold:
+                    sim.probe("naive-modified-time-in-repeated-hour")
             except BaseException as e:
                 if isinstance(e, CutError):
                     self.store_raised.setdefault(key, []).append(e)
